@@ -27,6 +27,8 @@ pub fn answer(db: &Db, q: &str) -> String {
                     });
                     format!("{:?}=>{}|{}/{}|{}|{:?}|{:?}|{:?}", p, c.description, c.value.numer(), c.value.denom(), c.unit, c.source, c.tokens, src)
                 }
+                #[allow(unreachable_patterns)]
+                _ => "<a description that is not a looked-up constant>".to_string(),
             })
             .collect();
         format!("{} ## {}", results.join(" ; "), ds.join(" ; "))
